@@ -163,8 +163,16 @@ func (g *c08Gen) funBody(idx int) *ast.Node {
 			subj := g.valExpr(f, assigned, 0)
 			l := fmt.Sprintf("l%d_%d", idx, len(f.locals))
 			f.locals = append(f.locals, l)
-			var m *ast.Node
-			switch g.n(0, 2, "mform") {
+			var m, after *ast.Node
+			switch g.n(0, 3, "mform") {
+			case 3:
+				// a name first used inside the case body (inside the call): gone after the
+				// case, and after the call
+				ml := fmt.Sprintf("ml%d", idx)
+				m = ast.Match(subj, ast.Case(ast.Block(ast.ExprS(ast.Set(ast.Id(ml), ast.Arr(ast.Id(bnd), ast.Num("7")))), ast.Print(ast.Str(f.name+":ml"), ast.Id(ml))), ast.Id(bnd)))
+				f.locals = append(f.locals, ml)
+				after = ast.Print(ast.Str(f.name+":mlb"), ast.Is(ast.Id(ml), "unknown"))
+				g.labels["name-created-in-match-block-in-call"] = true
 			case 0:
 				m = ast.Match(subj, ast.Case(ast.Bin("+", ast.Id(bnd), ast.Num("1")), ast.Id(bnd)))
 				g.labels["match-expr-body"] = true
@@ -176,6 +184,9 @@ func (g *c08Gen) funBody(idx int) *ast.Node {
 				g.labels["return-from-match-block"] = true
 			}
 			stmts = append(stmts, ast.ExprS(ast.Set(ast.Id(l), m)))
+			if after != nil && g.b("probe-inside-call") {
+				stmts = append(stmts, after)
+			}
 			assigned = append(assigned, l)
 			f.locals = append(f.locals, bnd)
 			// the binding must be gone after the case
